@@ -203,6 +203,7 @@ int main(void)
         guard_pass = pass;
         vf_parallel(16, 0, (long) MAXL + 1, do_len, fin);
         { size_t i; for (i = 0; i < NBND; i++) if (BND[i] > MAXL) do_len((long) BND[i]); }
+        { static const size_t BIG[] = { 4095, 4097, 16385, 65537 }; size_t i; for (i = 0; i < 4; i++) { apis_len(BIG[i], 0); apis_len(BIG[i], 13); } }
         for (a = 0; a < 16; a++) apis_fixed(a);
         apis_strings(); fin();
     }
